@@ -1,5 +1,6 @@
 """C10 — requested layout normal forms are actually achieved."""
 import ast
+import re
 
 from pyvc.core import source
 from props import common, generic
@@ -31,10 +32,37 @@ def nl_obligations(rep):
                       {}, undecided_if_false=True)
 
 
+def replay_serializer(rep):
+    """counter-models of the serializer's element obligation replayed on the real SerializerUnicode.process"""
+    from pyvc.core import import_repo, FAILED
+    import_repo()
+    from sqlparse.filters.others import SerializerUnicode
+    for ob in rep.obls:
+        if ob.status != FAILED or not ob.fn.endswith('SerializerUnicode.process'):
+            continue
+        m = (ob.detail or {}).get('model') or {}
+        cands = [''.join(x) for x in re.findall(r'"((?:[^"\\]|\\.)*)"', str(m.get('LINE', '')))]
+        cands = [c.encode().decode('unicode_escape') if '\\' in c else c for c in cands] + ['a\t', 'a \x0b']
+        for line in cands:
+            try:
+                out = SerializerUnicode.process(line)
+            except Exception:       # noqa
+                continue
+            bad = [l for l in out.split('\n') if l and l[-1].isspace()]
+            if bad:
+                ob.witness = {'input': ('serializer', line), 'failure': 'SerializerUnicode.process(%r) == %r: a line ends '
+                              'in whitespace' % (line, out), 'reproduced': True}
+                break
+
+
 def run(rep):
     return generic.run_generic(
-        rep, [('sqlparse.formatter.validate_options', None)] + SITE_FUNCS[:4], structural=[nl_obligations, stack_mapping],
-        assumptions=['per-function normal forms (_stripws_default, _stripws_parenthesis, _stripws_identifierlist, '
+        rep, [('sqlparse.formatter.validate_options', None)] + SITE_FUNCS[:4] + SITE_FUNCS[-1:] + [('sqlparse.filters.others.SerializerUnicode.process', None)],
+        structural=[replay_serializer, nl_obligations, stack_mapping],
+        assumptions=['proved: the serializer joins lines that are right-stripped of every whitespace character (element '
+                     'obligation of the real generator expression; str.rstrip() axiomatised as s == r ++ ws*, r not ending in '
+                     'a str.isspace character); StripWhitespaceFilter.process is total also on an empty statement',
+                     'per-function normal forms (_stripws_default, _stripws_parenthesis, _stripws_identifierlist, '
                      'SpacesAroundOperatorsFilter._process, _split_kwds) are not yet under SMT contracts: shape obligations '
                      'over the AST plus the bounded stand-in (normal-form oracles on grammar scripts, fixed points)',
                      'statements about the whole output string need re-lexing: bounded only'],
@@ -42,4 +70,14 @@ def run(rep):
 
 
 def replay(path):
+    import json
+    d = json.load(open(path))
+    inp = (d.get('witness') or {}).get('input')
+    if isinstance(inp, list) and inp and inp[0] == 'serializer':
+        from pyvc.core import import_repo
+        import_repo()
+        from sqlparse.filters.others import SerializerUnicode
+        out = SerializerUnicode.process(inp[1])
+        print('SerializerUnicode.process(%r) -> %r' % (inp[1], out))
+        return 1 if any(l and l[-1].isspace() for l in out.split('\n')) else 0
     return generic.replay_generic('C10', path)
